@@ -7,6 +7,9 @@ props = [json.loads(l) for l in open(os.path.join(ROOT, 'properties.jsonl'))]
 
 # id -> (technique, level text, level note, design ref)
 CHECKS = {
+ 'C02': ('runtime monitor: exactly-once trace checker over the spent/resolved/created ID stream + second-use fault injection into accepted blocks (re-signed, re-sealed) judged by the real ValidateBlock',
+         'On generated chains every ApplyUpdate/RevertUpdate feeds a spent-set and created-set checker (no ID used twice without an intervening revert); every accepted block is turned into all applicable second-use variants (28 classes: within a txn, across txns v1/v2/mixed, ephemeral outputs, storage proofs, v2 resolutions/revisions after resolution, cross-block re-spend with a proof maintained since before the first use, stale element in the supplement) whose only fault is the second use; each must be rejected by the rule that concerns double use (other rejections are counted inconclusive).',
+         'Trusted: the variant builder (re-balances values, re-signs, re-seals); the accepted original block is the positive control.', '§5 C02'),
  'C01': ('runtime monitor over generated histories: big-integer ledger (conservation trace checker) fed from the library\'s diffs, independent tax/claim/reward/subsidy schedule',
          'Every block accepted by the real ValidateBlock on generated chains (all eras, v1/mixed/v2, all transaction kinds, reorgs) is applied and the ledger identity unspent + locked(v1,v2) + unclaimed pool + forfeited = genesis + scheduled subsidy, the siafund count, each claim value (pool replayed inside the block), tax revenue and miner payouts are checked after every block and every revert; the client store totals are cross-checked. Held on the observed histories only.',
          'Trusted: math/big; schedules re-implemented from the protocol definition; genesis taken as allocation; legacy ephemeral-siafund window excluded as the quantifier says.', '§5 C01'),
